@@ -195,6 +195,14 @@ Definition step (h : hstate) (line : bytes) : res (hstate * list bytes) :=
   if beq_bytes op [67] then
     do v <- valof s rest hd;
     let '(s', x) := create s v in with_ref (Ok (s', x))
+  else if beq_bytes op [78] then
+    do v <- valof s rest hd;
+    match create_nested s v with
+    | Ok (s', (p, c)) => Ok (mkH s' (h_tr h) (hd ++ [p; c]) (h_prom h) (h_prev h), [rtext p; rtext c])
+    | Err e => Ok (h, [etext e])
+    | Panic k => Panic k
+    | OutOfFuel => OutOfFuel
+    end
   else if beq_bytes op [85] then
     let '(t1, t2) := tok rest [] in
     match refd t1 hd with
